@@ -7,6 +7,7 @@ args = sys.argv[1:]
 fix = None
 if "--fix" in args:
     i = args.index("--fix"); fix = args[i + 1]; del args[i:i + 2]
+args = [a for a in args if a != "-v"]
 src, budget, mode, defs = args[0], args[1], args[2], args[3:]
 exe = build.build_harness(os.path.join(build.VERIF, "harness", src), defs)
 out = "/tmp/probe_%d.jsonl" % os.getpid()
